@@ -638,6 +638,9 @@ def train_numpyro_svi_early_stop(
         return state, loss
 
     best_state, best_loss = update_func(init_state, svi_class, lr_init)
+    if jnp.isnan(best_loss):
+        # NaN compares False with everything, so it could never be improved on
+        best_loss = jnp.inf
 
     for r in range(num_round):
         losses = []
